@@ -79,6 +79,8 @@ def gen(run):
                 ops.append("%s:%s:%d:%d" % ("M" if item else "m", ts, me, rng.randrange(2)))
             else:
                 ops.append("c")
+            if rng.random() < 0.12:
+                ops.append(rng.choice("Kk"))          # carry on with a copy of the block
         L.append("ts blk %d %s" % (r, " ".join(ops)))
     run.count("block histories", len(L) - n0)
     return L
